@@ -4,10 +4,10 @@ PROP = dict(
     level="proof",
     lean_modules=['PopsModel.Props.C05'],
     theorems=['Pops.C05_shift', 'Pops.C05_no_early_transition', 'Pops.C05_exact_latency', 'Pops.C05_L0_equals_SI'],
-    commands=['hp.stepfwd'],
+    commands=['hp.stepfwd', 'hp.l0'],
     runs={
-        "quick": [('h_host', 'pool', 0, 1500), ('h_model', 'model', 0, 400)],
-        "thorough": [('h_host', 'pool', 0, 150000), ('h_model', 'model', 0, 20000)],
+        "quick": [('h_host', 'pool', 0, 1500), ('h_model', 'model', 0, 400), ('h_model', 'l0', 0, 150)],
+        "thorough": [('h_host', 'pool', 0, 150000), ('h_model', 'model', 0, 20000), ('h_model', 'l0', 0, 10000)],
     },
     exhaustive={"quick": False, "thorough": False},
     rule="case (pool) = one random landscape (7 shapes incl. 1x1, 1xN, Nx1, rows != cols; SI/SEI, latency 0..3, 1..4 mortality cohorts, 20% empty cells) with 5-14 random operations (add/land a disperser with scripted uniform, deterministic generation, pests from/to, host move incl. same-cell, removal/pesticide treatment in both modes with coefficients k/64, pesticide end, survival rate, lethal temperature, mortality, latency step); case (model) = one random Model configuration (feature subsets, calendar with day/week/month steps, both entry points, injected kernel throwing dispersers inside / at the source / just outside / far outside) run for up to 40 steps with the state printed after every action; non-trivial = at least 3 different operation kinds on a landscape with a suitable cell (pool) / at least 3 steps (model); distinct = blake2b of the case's protocol lines",
@@ -17,7 +17,7 @@ PROP = dict(
 
 META = dict(engine="h_host", design_ref="DESIGN.md section 3, C05",
     technique='Lean 4 shift-register induction + specification predicates and exact comparison on the implementation',
-    text='Proof: step_forward is exactly a one-position shift with the front cohort joining infected and the youngest mortality cohort iff step >= L; hosts exposed in spread step t are counted as infected from the latency step of spread step t+L on and not earlier (closed formula for any run length and any exposure sequence); L = 0 gives the SI state. Tied to the code by the shift specification evaluated on HostPool::step_forward in random SEI states (pool harness) and at every spread step of Model::run_step, with exact comparison.',
+    text='Proof: step_forward is exactly a one-position shift with the front cohort joining infected and the youngest mortality cohort iff step >= L; hosts exposed in spread step t are counted as infected from the latency step of spread step t+L on and not earlier (closed formula for any run length and any exposure sequence); L = 0 gives the SI state. Tied to the code by the shift specification evaluated on HostPool::step_forward in random SEI states (pool harness) and at every spread step of Model::run_step, with exact comparison; whole Model runs with SEI and latency 0 are compared step by step with the SI run on the same seeds, inputs, kernel results and uniforms (h_model l0).',
     note='Trusted: Lean kernel + propext/Classical.choice/Quot.sound; hand-written L1 model of host_pool.hpp / treatments.hpp / actions.hpp (Model/Host.lean, Treat.lean, Actions.lean); harness and driver. int as unbounded Int; ratios as exact Rat on dyadic inputs (k/64); std::shuffle assumed to produce a permutation (draws are inferred from the observed difference and checked for validity).')
 
 ENGINES = [
